@@ -40,6 +40,13 @@ SITE_TABLE = {
 }
 
 
+# a write site that is not in the table by name (merged / renamed / inlined writer) is judged by the module it lives in: whatever the
+# gaussian distribution module writes is a conformalization file
+MODULE_TABLE = {
+    "elexmodel.distributions.GaussianModel": ("conformalization", False, "gaussian conformalization files"),
+}
+
+
 def site_key(f):
     """the SITE_TABLE entry of a write site: by qualified name, or - for a writer that was moved (to module level, to another class) and
     kept its name - by the name alone when that is unambiguous"""
@@ -76,6 +83,7 @@ def check(ctx):
     # ---- R1 ------------------------------------------------------------------------------
     npaths = 0
     reachable_sites = set()
+    reachable_modules = set()
     for kind, sf, scall, desc in sinks:
         for root in roots:
             paths = [[]] if sf is root else cg.paths(root, sf, limit=400)
@@ -108,7 +116,9 @@ def check(ctx):
                 chain = " -> ".join(f.qualname for f, _ in frames)
                 key = f"{root.qualname}|{chain}|{util.stmt_text(frames[-1][1], 60)}"
                 where = frames[-1][0].where(frames[-1][1])
-                want = SITE_TABLE.get(site_key(site))
+                want = SITE_TABLE.get(site_key(site)) or MODULE_TABLE.get(site.module.name)
+                if site_key(site) not in SITE_TABLE and site.module.name in MODULE_TABLE:
+                    reachable_modules.add(site.module.name)
                 if want is None:
                     ctx.ob("C18.R1.unlisted", key, bool(flags), where,
                            f"write site {site.qualname} ({desc}) is not a known artefact; guarded by flags {sorted(flags)}"
@@ -128,6 +138,8 @@ def check(ctx):
     ctx.count("C18.R1.paths", npaths)
     for s in ("CombinedDataHandler.write_data", "ModelResultsHandler.write_data", "PreprocessedDataHandler.save_data",
               "ConfigHandler.save", "GaussianModel._write_conformalization_data", "GaussianModel._write_gaussian_bounds"):
+        if s.startswith("GaussianModel.") and "elexmodel.distributions.GaussianModel" in reachable_modules:
+            continue  # the gaussian writers were merged / renamed / inlined: their puts were judged through MODULE_TABLE
         ctx.require(s in reachable_sites, f"C18.R1: write site {s} is no longer reachable from the entry points "
                                           f"(call graph edge lost or anchor renamed)")
     # built-in positive example: an unguarded sink must yield no flags
@@ -213,6 +225,12 @@ def check(ctx):
             keyt = t[2][0]
             nkeys += 1
             problems = _key_problems(keyt)
+            # a placeholder has to be a scalar: str() of a list / tuple / dict is "['a', 'b']" - brackets, quotes and ", " with a blank as
+            # soon as it has two entries (e.g. the key list of an aggregate below the state level)
+            for ph in (keyt[1] if keyt[0] == "fstr" else ()):
+                why = _collection_valued(f, ph)
+                if why:
+                    problems.append(f"placeholder {ir.show(ph)} is a collection ({why}): its text contains ', ' whenever it has two entries")
             if problems and any("election_id" in p_ for p_ in problems):
                 # the election id may reach the writer packed in another argument (a tuple of ids ..): read the template with the arguments of
                 # every call site in place of the parameters
@@ -363,6 +381,34 @@ def _key_problems(t):
         if p[0] == "const" and isinstance(p[1], str) and any(ch.isspace() for ch in p[1]):
             problems.append(f"constant part {p[1]!r} contains whitespace")
     return problems
+
+
+def _collection_valued(f, t):
+    """why the term formatted into a key is a list / tuple / dict / set (None if nothing says so): a display, or a parameter / local that
+    the same function slices, concatenates with a list display, or declares with a list default"""
+    if t[0] in ("list", "tuple", "dict", "set", "listcomp"):
+        return f"a {t[0]} display"
+    if t[0] == "call" and t[1][0] == "global" and t[1][1] in ("list", "tuple", "sorted", "set", "dict"):
+        return f"result of {t[1][1]}()"
+    name = t[1] if t[0] in ("param", "name") and isinstance(t[1], str) else None
+    if name is None:
+        return None
+    a = f.node.args
+    pos = a.posonlyargs + a.args
+    for arg, d in list(zip(pos[len(pos) - len(a.defaults):], a.defaults)) + [(k, d) for k, d in zip(a.kwonlyargs, a.kw_defaults) if d is not None]:
+        if arg.arg == name and isinstance(d, (ast.List, ast.Tuple, ast.Dict, ast.Set)):
+            return "list default"
+    for arg in pos + a.kwonlyargs:
+        if arg.arg == name and arg.annotation is not None and ast.unparse(arg.annotation).split("[")[0].lower() in ("list", "tuple", "dict", "set", "typing.list"):
+            return "annotated as a collection"
+    for n in ast.walk(f.node):
+        if isinstance(n, ast.Subscript) and isinstance(n.value, ast.Name) and n.value.id == name and isinstance(n.slice, ast.Slice):
+            return "sliced in the same function"
+        if isinstance(n, ast.BinOp) and isinstance(n.op, ast.Add):
+            for x, y in ((n.left, n.right), (n.right, n.left)):
+                if isinstance(x, ast.Name) and x.id == name and isinstance(y, (ast.List, ast.Tuple)):
+                    return "concatenated with a list display in the same function"
+    return None
 
 
 def _is_election_id(t):
